@@ -506,6 +506,12 @@ func execute(c *Ctx, cases []Case, st *runState, confirm bool, on func(cs *Case,
 		st.brake = newBrake()
 	}
 	cfg := runCfg{Workers: c.Work, Timeout: watchdog, ASLimit: asLimit, NoHeap: !confirm, Skip: st.brake.skip, Note: st.brake.note}
+	if confirm {
+		// C09: the wall watchdog alone does not kill a case that has not had its CPU budget yet (busy machine);
+		// three watchdog periods of wall time are the limit
+		cfg.CPUNeed = func(c *Case) int64 { s, _ := inDomain(c); return cpuBudgetUs(c, s) }
+		cfg.WallCap = 3 * watchdog
+	}
 	if os.Getenv("PARSERS_VERBOSE") != "" {
 		cnt := map[string]int{}
 		for i := range cases {
@@ -710,7 +716,13 @@ func confirmWave(c *Ctx, st *runState, batch []Case, res []Res, kinds [][]string
 			if r.Status == "" {
 				continue
 			}
-			if k2 := confirmedKind(&batch[cd.i], r, s, cd.kind); k2 != "" {
+			k2 := confirmedKind(&batch[cd.i], r, s, cd.kind)
+			if k2 == "" && r.Status == "crash" { // the isolated run, left running longer, ended in a fatal error of the runtime
+				for _, k := range c09Kinds(&batch[cd.i], r, s) {
+					k2 = k
+				}
+			}
+			if k2 != "" {
 				st.doneKeys[cd.key] = true
 				kinds[cd.i] = append(kinds[cd.i], k2)
 				if r.Over == "" {
@@ -1213,8 +1225,14 @@ func inflations(s *Seed) []mutant {
 func runC09(c *Ctx) {
 	t0 := time.Now()
 	c.R.Rule = "C09: inputs <= 64 KiB whose first frame header (SOF/SIZ found by the independent walker; for codec[RLE] the FrameInfo) declares " +
-		"S = w*h*comps <= 2^22 or nothing: each Decode call runs in a child process; violation = no result within 10 s, fatal out-of-memory " +
-		fmt.Sprintf("under RLIMIT_AS=%d MiB, or sampled peak heap growth > 512 MiB + 64*S. ", asLimit>>20) +
+		"S = w*h*comps <= 2^22 or nothing: each Decode call runs in a child process; violation = CPU time of the case (user+system, collection of its garbage included) " +
+		"> cpu_budget(S, len), sampled peak heap growth > heap_budget(S, len), or fatal out-of-memory " +
+		fmt.Sprintf("under RLIMIT_AS=%d MiB. ", asLimit>>20) +
+		"Wall time is not judged: the 10 s watchdog is a kill switch that waits until the case has had its CPU budget (at most 30 s), and every candidate " +
+		"(over budget, or killed) must reproduce in an isolated re-run on one child, judged by CPU time, before it is reported (signatures <entry>:cpu-budget, " +
+		"<entry>:timeout = killed after the CPU budget was used up, <entry>:heap-budget:<site>, <entry>:mem:fatal-oom:<site>). " +
+		"Brake: an entry point with 6 slow results is paused until the confirmations at the end of the wave, and stopped for the rest of the run when a time " +
+		"signature of it is confirmed; with 6 distinct confirmed signatures all entry points having one are stopped. " + calibNote +
 		"Cases: valid streams, truncations, field-targeted corruption, declared-size inflation up to S = 2^22, work multipliers " +
 		"(layers 65535, levels 32, 1x1 precincts/tiles, Csiz 16384), havoc, random after SOI/SOC, arbitrary RLE FrameInfo. " +
 		"non-trivial = a mutated input of >= 2 bytes inside the domain"
